@@ -399,4 +399,28 @@ func checkC09(c *Ctx, r *Report) {
 			})
 		}
 	}
+
+	// ---- rule 5: what a session-less send transmits was serialised for it. The serialise
+	// buffer is shared with the sessions opened from the connection, so a datagram left in it
+	// may be an in-session one (with a session ID and a sequence number already used).
+	r.Rule("sessionless-serialised-afresh", "every session-less transmission is preceded, in the same operation, by the serialisation of its packet into the buffer: a packet left in the buffer by an earlier (possibly in-session) command is never sent again", 2)
+	for _, s := range sessless {
+		if s.Send == nil {
+			continue
+		}
+		ok := false
+		viewInstrs(s.Fn, func(in ssa.Instruction) {
+			if isCallTo(in, fnSerializeLayers) && mustPrecede(s.Fn, in, s.Send) {
+				ok = true
+			}
+		})
+		if !ok && s.Parent != nil && s.Retry != nil {
+			viewInstrs(s.Parent, func(in ssa.Instruction) {
+				if isCallTo(in, fnSerializeLayers) && mustPrecede(s.Parent, in, s.Retry) {
+					ok = true
+				}
+			})
+		}
+		r.Check(ok, c.FnName(s.Parent)+"|serialised before send", s.Send.Pos(), "SerializeLayers precedes the transmission on every path", "a path reaches the transmission without the packet having been serialised in this operation: whatever the shared buffer holds — possibly an in-session datagram of a session opened from this connection — is sent again")
+	}
 }
